@@ -56,6 +56,16 @@ def policy_test_norm(fa: FuncAnalysis, n: Node, test):
     return (p[0], p[1], pol) if p else None
 
 
+def policy_holds(fa: FuncAnalysis, n: Node, lit: str) -> bool:
+    """some dominating test establishes that the consulted policy *is* `lit` at n (written as `x == P` taken, or
+    `x != P` not taken)"""
+    for a, p in fa.facts.atoms_at(n):
+        pn = policy_test_norm(fa, n, a)
+        if pn and pn[1] == lit and bool(p) == pn[2]:
+            return True
+    return False
+
+
 class Site:
     def __init__(self, f, fa, h, convert_node, convert_call):
         self.f, self.fa, self.h, self.cn, self.cc = f, fa, h, convert_node, convert_call
@@ -317,10 +327,8 @@ def r11d(run):
     rets = []
     for n in fa.cfg.nodes:
         if n.kind == "stmt" and isinstance(n.ast, ast.Return) and fa.cfg.is_live(n):
-            for a, p in fa.facts.atoms_at(n):
-                pol = policy_of_test(fa, n, a)
-                if pol and pol[1] == "EXCLUDE" and p:
-                    rets.append(n)
+            if policy_holds(fa, n, "EXCLUDE"):
+                rets.append(n)
     # also: paths of the EXCLUDE branch that leave it without returning
     tests = [m for m in fa.cfg.nodes if m.kind == "test" and policy_test_norm(fa, m, m.ast)
              and policy_test_norm(fa, m, m.ast)[1] == "EXCLUDE"]
@@ -328,8 +336,7 @@ def r11d(run):
     for t in tests:
         tb = [s_ for s_, k in t.succ if s_.kind == "branch" and s_.polarity == policy_test_norm(fa, t, t.ast)[2]]
         body = fa.cfg.reach_from_succ(tb[0], kinds=(N,)) | {tb[0]} if tb else set()
-        exits = [m for m in body if m.kind == "stmt" and isinstance(m.ast, ast.Return)
-                 and any(policy_of_test(fa, m, a) and policy_of_test(fa, m, a)[1] == "EXCLUDE" and p for a, p in fa.facts.atoms_at(m))]
+        exits = [m for m in body if m.kind == "stmt" and isinstance(m.ast, ast.Return) and policy_holds(fa, m, "EXCLUDE")]
         falls = [m for m in body if m.kind == "stmt" and isinstance(m.ast, ast.Return) and m not in exits]
         ok = bool(exits) and all(isinstance(m.ast.value, ast.Call) and call_attr(m.ast.value) == "get_default" for m in exits) \
             and not falls
@@ -377,9 +384,9 @@ def r11b(run):
     ok = False
     for n, c in fa.all_calls():
         if is_handle_error_call(c):
-            facts = {(unparse(a), p) for a, p in fa.facts.atoms_at(n)}
-            if any(t.endswith("== context.options.EXCLUDE") and p for t, p in facts) and \
-                    any(t.startswith("self.is_required(") and p for t, p in facts):
+            req = any(isinstance(a, ast.Call) and call_attr(a) == "is_required" and unparse(a.func.value) == "self" and p
+                      for a, p in fa.facts.atoms_at(n))
+            if policy_holds(fa, n, "EXCLUDE") and req:
                 ok = True
     run.check("R11b", f, "a required field is never silently excluded (EXCLUDE + is_required -> handle_error)", ok,
               construct="required field excluded", message="parse_value no longer raises for a required field under "
